@@ -862,7 +862,7 @@ def program(rng, max_depth):
     roll = rng.random()
     if roll < 0.30:
         return g.scenario(sc, min(d, 3)), doc, 'any'
-    if roll < 0.45:
+    if roll < 0.50:
         n = rng.choice((2, 3))
         return ['list', [g.expr('any', sc, d - 1) for _ in range(n)]], doc, ('list', 'any')
     t = g.some_type()
@@ -1130,6 +1130,8 @@ def name_class(n):
         out.append('function-name')
     if not is_keyword(n):
         out.append('no-keyword')
+    if n in HOST_NAMES:
+        out.append('host-vocabulary')
     return out or ['plain']
 
 
@@ -1165,6 +1167,70 @@ def name_classes(e, out=None):
     for c, _ in children(e):
         name_classes(c, out)
     return out
+
+
+def value_classes(e, doc):
+    """which of the equal-but-differently-typed value situations a program (with its document) contains (set)"""
+    out = set()
+
+    def scalars(v, acc):
+        if isinstance(v, dict):
+            for x in v.values():
+                scalars(x, acc)
+        elif isinstance(v, (tuple, list)):
+            for x in v:
+                scalars(x, acc)
+        else:
+            acc.append(v)
+        return acc
+
+    def mixed(vals):
+        vals = [v for v in vals if isinstance(v, (bool, int, float))]
+        return any(a == b and type(a) is not type(b) for i, a in enumerate(vals) for b in vals[i + 1:])
+    leaves = scalars(doc, [])
+    if any(isinstance(v, float) for v in leaves):
+        out.add('float in the document')
+    if any(isinstance(v, float) and repr(v) == '-0.0' for v in leaves):
+        out.add('-0.0 in the document')
+    if mixed(leaves):
+        out.add('equal values of different types in the document')
+    calls = {}
+
+    def lits_of(x, acc):
+        if x[0] == 'lit':
+            acc.append(x[1])
+        for c, _ in children(x):
+            lits_of(c, acc)
+        return acc
+
+    def walk(x):
+        if x[0] == 'lit' and isinstance(x[1], float):
+            out.add('float literal')
+        if x[0] == 'un' and x[1] == 'neg' and x[2] == ['lit', 0.0] and isinstance(x[2][1], float):
+            out.add('-0.0 literal')
+        if x[0] == 'list' and mixed([c[1] for c in x[1] if c[0] == 'lit']):
+            out.add('equal values of different types side by side in a list')
+        if x[0] == 'call' and fn_core(x[1]) not in _BUILTIN_NAMES:
+            calls.setdefault(fn_core(x[1]), []).append(lits_of(['list', x[2] + [v for _, v in x[3]]], []))
+        for c, _ in children(x):
+            walk(c)
+    walk(e)
+    for f, argl in calls.items():
+        if len(argl) > 1:
+            out.add('a def-ined function called several times')
+            flat = [tuple(a) for a in argl]
+            if any(mixed([a, b]) for x in argl for y in argl if x is not y for a in x for b in y):
+                out.add('... with equal arguments of different types')
+            if len(set(map(repr, flat))) < len(flat):
+                out.add('... twice with the same arguments')
+    return out
+
+
+_BUILTIN_NAMES = ('let', 'with', 'def', 'list', 'dict', 'len', 'any', 'all')
+
+
+def fn_core(name):
+    return name.rstrip('_')
 
 
 def shrink_candidates(e):
